@@ -383,10 +383,10 @@ reg("C16",
     H("c16", "c16_lemma_many1_complete", bounds="nom 7.1.3 many1(complete(p)) on a model parser with Copy output; buffer <= 8 B symbolic length (up to 8 elements)", funcs=["nom::multi::many1", "nom::combinator::complete"]),
     H("c16", "c16_lemma_many0_complete", bounds="nom 7.1.3 many0(complete(p)) on the same model parser; buffer <= 8 B", funcs=["nom::multi::many0", "nom::combinator::complete"]),
     H("c16", "c16_many_empty_and_garbage_first_record", bounds="concrete inputs: empty buffer; one complete record of unknown content type (TLS and DTLS), one symbolic payload byte", funcs=["tls_parser_many", "parse_dtls_plaintext_records"], timeout=900, mem=16),
-    H("c16", "c16_wrapper_with_model_record_parser", bounds="tls_parser_many on <= 5 B symbolic length with parse_tls_plaintext replaced by a model of 2-byte records (<= 2 records)",
-      stubs=["parse_tls_plaintext (model single-record parser)"], funcs=["tls_parser_many"], timeout=1200, mem=16),
+    H("c16", "c16_wrapper_with_model_record_parser", tier="thorough", bounds="tls_parser_many on <= 5 B symbolic length with parse_tls_plaintext replaced by a model of 2-byte records (<= 2 records)",
+      stubs=["parse_tls_plaintext (model single-record parser)"], funcs=["tls_parser_many"], timeout=2400, mem=28),
     H("c16", "c16_dtls_wrapper_with_model_record_parser", tier="thorough", bounds="parse_dtls_plaintext_records on <= 5 B with the single-record parser replaced by a model of 2-byte records",
-      stubs=["parse_dtls_plaintext_record (model single-record parser)"], funcs=["parse_dtls_plaintext_records"], timeout=2400, mem=20),
+      stubs=["parse_dtls_plaintext_record (model single-record parser)"], funcs=["parse_dtls_plaintext_records"], timeout=2400, mem=28),
     H("c16", "c16_tls_parser_is_parse_tls_plaintext", bounds="<= 10 B symbolic length, all bytes symbolic; content dispatcher stubbed for both", stubs=["parse_tls_record_with_header"], funcs=["tls_parser", "parse_tls_plaintext"]),
     )
 
